@@ -730,6 +730,23 @@ def eval_curved(ctx, case):
         if farB[i] and m_in[i] != res[i]:
             ctx.disagree(cls.lower() + ".inside", dict(case, points=[case["points"][i]]), [bool(res[i]), bool(m_in[i])])
             break
+    # ---- integer-typed points: the answer must not depend on the dtype / container the points arrive in (an offset
+    #      array allocated with the points' dtype truncates `point - centre` for fractional centres)
+    ip = np.round(pts).astype(np.int64)
+    try:
+        ref_i = np.asarray(shp.is_inside(ip.astype(np.float64)))
+        for nm, arg in (("int64-array", ip.copy()), ("int-list", ip.tolist()), ("int32-array", ip.astype(np.int32))):
+            got_i = np.asarray(shp.is_inside(arg))
+            if got_i.shape != ref_i.shape or not np.array_equal(got_i, ref_i):
+                k = int(np.flatnonzero(got_i != ref_i)[0]) if got_i.shape == ref_i.shape else 0
+                ctx.fail(cls + ".is_inside:integer-points:" + nm, "integer-typed points are answered differently from the "
+                         "same points as float64", dict(case, points=[]),
+                         {"point": ip[k].tolist(), "as_" + nm: bool(got_i[k]) if got_i.size > k else None,
+                          "as_float64": bool(ref_i[k])})
+                break
+    except Exception as e:  # noqa: BLE001
+        ctx.fail(cls + ".is_inside:integer-points:raises", "is_inside raised %s on integer-typed points" % exc_kind(e),
+                 dict(case, points=[]), repr(e))
     # ---- out-of-plane offsets relative to the size.  B: implementation = model (isclose(z, 0, atol = 1e-8 * size))
     #      everywhere except a hair round the switch.  C: a point within rounding of the plane (|dz| <= 1e-9 * size, the
     #      project's natural tolerance) is an in-plane point: its answer must be that of its in-plane twin, at every
